@@ -334,7 +334,7 @@ def check_bytes(res, data, asc, exp, kn):
     shift = exp["shift"]
     for pi, p in enumerate(asc["parts"]):
         pass
-    tempos_want = sorted(set((gen.quarter_pos(p, tm["t"]) + shift, int(round(60_000_000 / tm["bpm"]))) for p in asc["parts"] for tm in p["tempos"]))
+    tempos_want = sorted(set((gen.quarter_pos(p, tm["t"]) + shift, gen.tempo_mpq(tm["bpm"], tm.get("unit"))) for p in asc["parts"] for tm in p["tempos"]))
     tempos_got = sorted(set((F(ev["tick"], ppq), ev["tempo"]) for tr in smf["tracks"] for ev in tr if ev["type"] == "set_tempo"))
     if tempos_want:
         # a default tempo at tick 0 is legitimate when the score has no tempo mark there
